@@ -192,7 +192,7 @@ Proof.
   - assert (forallb (result_clean stops) rs = true) as Hrs.
     { apply nth_error_In in N. rewrite Forall_forall in E. exact (E _ N). }
     destruct (has_stop (cfg (st r)) rs); injection H as <-; (split; [|eapply Ends_same; [| |exact En]; reflexivity]);
-      constructor; cbn [st tbuf mailbox wakeups donew set_wait]; try assumption;
+      constructor; cbn [st tbuf mailbox wakeups donew set_wait log_fire]; try assumption;
       try (apply Forall_app; split; [exact B|constructor; [exact Hrs|constructor]]).
     + constructor.
     + apply Forall_firstn_skipn. exact E.
@@ -201,12 +201,12 @@ Proof.
       destruct d as [|d0 dl].
       * destruct (pending r); [discriminate H|]. injection H as <-.
         split; [|eapply Ends_same; [| |exact En]; reflexivity].
-        constructor; cbn [st tbuf mailbox wakeups donew set_wait]; try assumption; constructor.
+        constructor; cbn [st tbuf mailbox wakeups donew set_wait log_fire]; try assumption; constructor.
       * injection H as <-. split; [|eapply Ends_same; [| |exact En]; reflexivity].
-        constructor; cbn [st tbuf mailbox wakeups donew set_wait]; try assumption; try constructor.
+        constructor; cbn [st tbuf mailbox wakeups donew set_wait log_fire]; try assumption; try constructor.
         apply Forall_app. split; [exact B|exact X].
     + injection H as <-. inversion C; subst. split; [|eapply Ends_same; [| |exact En]; reflexivity].
-      constructor; cbn [st tbuf mailbox wakeups donew set_wait]; try assumption; try constructor.
+      constructor; cbn [st tbuf mailbox wakeups donew set_wait log_fire]; try assumption; try constructor.
       apply Forall_app. split; [exact B|constructor; [assumption|constructor]].
 Qed.
 
